@@ -268,6 +268,12 @@ class SSHChannel(Generic[AnyStr], SSHPacketHandler):
         """Discard unreceived data and clean up if close received"""
 
         # Discard unreceived data
+        if self._recv_buf_len and self._send_state == 'close_pending':
+            # Unsent data is still being flushed before the close. Give the
+            # window used by what is discarded back, so that a peer blocked
+            # on its own output can finish and close
+            self._consume_recv_window(self._recv_buf_len)
+
         self._recv_buf = []
         self._recv_buf_len = 0
         self._recv_paused = False
@@ -368,10 +374,10 @@ class SSHChannel(Generic[AnyStr], SSHPacketHandler):
             self._recv_state = 'closed'
             self._loop.call_soon(self._cleanup, exc)
 
-    def _deliver_data(self, data: bytes, datatype: DataType) -> None:
-        """Deliver incoming data to the session"""
+    def _consume_recv_window(self, datalen: int) -> None:
+        """Count received data against the window, reopening it as needed"""
 
-        self._recv_window -= len(data)
+        self._recv_window -= datalen
 
         if self._recv_window < self._init_recv_window / 2:
             adjust = self._init_recv_window - self._recv_window
@@ -381,6 +387,11 @@ class SSHChannel(Generic[AnyStr], SSHPacketHandler):
 
             self.send_packet(MSG_CHANNEL_WINDOW_ADJUST, UInt32(adjust))
             self._recv_window = self._init_recv_window
+
+    def _deliver_data(self, data: bytes, datatype: DataType) -> None:
+        """Deliver incoming data to the session"""
+
+        self._consume_recv_window(len(data))
 
         if self._encoding:
             try:
@@ -412,6 +423,12 @@ class SSHChannel(Generic[AnyStr], SSHPacketHandler):
             return
 
         if self._send_state in {'close_pending', 'closed'}:
+            if self._send_state == 'close_pending':
+                # Unsent data is still being flushed before the close. Keep
+                # the window open for what is dropped meanwhile, so that a
+                # peer blocked on its own output can finish and close
+                self._consume_recv_window(len(data))
+
             return
 
         if self._recv_paused:
